@@ -41,6 +41,14 @@ type Chain struct {
 
 // RecOp is one recorded operation of a linear execution.
 type RecOp struct {
+	// Refresh, when set, is a light-client refresh the relayer model performed at this position
+	// (what a MsgUpdateClient would leave behind; see RefreshClient)
+	Refresh *RefreshOp
+	// Raw, when set, is a harness-level operation (an environment event with no transaction form, e.g.
+	// the slashing module reporting downtime) that succeeded at this position; it is written against
+	// the application it is handed, so the conformance replay re-executes it on its own application
+	Raw        RawFn
+	RawName    string
 	Msg        sdk.Msg
 	Rejected   bool
 	Block      bool
@@ -52,9 +60,57 @@ type RecOp struct {
 
 // Recorder logs a linear execution (fixture prefix + one trace) of one chain.
 type Recorder struct {
-	Ops     []RecOp
-	Tainted string // non-empty: the execution used a harness-only operation that has no transaction form
-	Stores  []string
+	// Claims are the (path, value) statements about the counterparty's store the proof oracle
+	// verified while the recorded chain handled IBC messages (value nil = proven absent)
+	Claims []Claim
+	// consumer chains: what is needed to start the same chain on a fresh application
+	Genesis     []byte
+	GenesisTime time.Time
+	InitVals    []abci.ValidatorUpdate
+	Ops         []RecOp
+	Tainted     string // non-empty: the execution used a harness-only operation that has no transaction form
+	Stores      []string
+}
+
+// RawFn is a harness-level operation: it must reach keepers through app only.
+type RawFn func(app ABCIApp, ctx sdk.Context) error
+
+// Raw runs a harness-level operation as a transaction of the current block (state written iff it
+// returns nil) and records it for the conformance replay.
+func (s *State) Raw(name string, f RawFn) (err error, panicMsg string) {
+	defer func() {
+		if r := recover(); r != nil {
+			panicMsg = fmt.Sprintf("%v\n%s", r, debug.Stack())
+		}
+	}()
+	cctx, write := s.Ctx.CacheContext()
+	em := sdk.NewEventManager()
+	cctx = cctx.WithEventManager(em)
+	if err = f(s.C.App, cctx); err != nil {
+		s.C.obs("raw-reverted", nil, nil)
+		return err, ""
+	}
+	write()
+	s.C.obs("raw:"+name, em.ABCIEvents(), nil)
+	if s.C.Rec != nil {
+		s.C.Rec.Ops = append(s.C.Rec.Ops, RecOp{Raw: f, RawName: name})
+	}
+	return nil, ""
+}
+
+// RefreshOp is a recorded light-client refresh.
+type RefreshOp struct {
+	ClientID string
+	Height   int64
+	Time     time.Time
+	Force    bool
+}
+
+// Claim is one statement verified by the proof oracle.
+type Claim struct {
+	Store string
+	Key   []byte
+	Value []byte
 }
 
 // RecordNextProvider makes the next NewProvider attach a Recorder.
@@ -174,6 +230,7 @@ func (s State) Time() time.Time { return s.Ctx.BlockTime() }
 
 // TxResult is the outcome of one message.
 type TxResult struct {
+	Res    *sdk.Result
 	Err    error
 	Events []abci.Event
 	Panic  string
@@ -214,7 +271,7 @@ func (s *State) Deliver(msg sdk.Msg) (res TxResult) {
 		evs = r.Events
 	}
 	s.C.obs("tx", evs, nil)
-	return TxResult{Events: evs}
+	return TxResult{Events: evs, Res: r}
 }
 
 // RunTx runs an arbitrary function as a transaction (used for IBC callbacks the Net shim makes):
